@@ -322,7 +322,7 @@ func minimise(prop Property, c *Case, v *Violation, budget int) (*Case, *Violati
 				continue
 			}
 			spent++
-			nv, ri := prop.Check(cand)
+			nv, ri := runCheck(prop, cand)
 			if nv != nil && nv.Rule == curV.Rule {
 				cur, curV = freezeKeep(cand, ri), nv
 				steps++
